@@ -338,8 +338,20 @@ def around(ops_between, *sessions):
     return [s[0] for s in sessions] + list(ops_between) + [s[1] for s in sessions]
 
 
+def big_fanout_case():
+    """one entity with 150 outgoing references (and 150 entities referring to one target): page limits far above the
+    fan-out, above 1000, exactly 1000 and small - the union of the pages must always be all 150"""
+    tg = ["t%d" % k for k in range(1, 151)]
+    ops = [B("a", ent("e1", {"r1": tg[:120], "r2": tg[100:]})), B("b", ent("e2", {"r1": tg[:5]}))]
+    for lim in (5000, 1001, 1000, 101, 100, 40):
+        ops += hq("f%d" % lim, ["e1", "e2"], limit=lim, resend=(lim == 1001))
+    ops += hq("g1", ["e1"], "r1", limit=2000) + hq("g2", ["t101", "t3"], inverse=True, limit=1500)
+    ops += [q(["e1"], limits=[5000]), q(["e1", "e2"], limits=[64]), ha(["e1"], limit=3000, at=0), jq(["e1"])]
+    return {"datasets": DSN, "ops": ops}
+
+
 def witness_cases():
-    return [dict(c, proxies=PROXIES) for c in _witness_cases()]
+    return [dict(c, proxies=PROXIES) for c in _witness_cases() + [big_fanout_case()]]
 
 
 def _witness_cases():
